@@ -164,7 +164,10 @@ PROPS = {
                             "is a theorem about the model since the continuation session: Model/Shuffle.lean models MT19937 "
                             "seeding and NumPy's legacy shuffle, the table is a pure function of (k, seed) there "
                             "(C18_seeded_deterministic) and is compared entry by entry with NumPy's output on every run"]),
-    "C19": dict(level="proof", theorems=T("C19", "C19_scores", "C19_step", "C19_history") + TIE_SCORE + TIE_VIEWS[1:2] + GRAPHCOR["C19"], tie=[("graphized", ["calculate_intersection_score", "accessor_to_latter_map", "obtain_leaf_vertices", "obtain_vertices"])], gens=["C19", "GENGZ"],
+    "C19": dict(level="proof", theorems=T("C19", "C19_scores", "C19_step", "C19_history") + TIE_SCORE + TIE_VIEWS[1:2] + GRAPHCOR["C19"] +
+                TIE("SwRemove", "tie_remove_nasty_arc") + TIE("RemoveCorollaries", "gen_C19_returns", "gen_C19_step", "gen_C19_history"),
+                tie=[("graphized", ["calculate_intersection_score", "accessor_to_latter_map", "obtain_leaf_vertices", "obtain_vertices"]),
+                     ("spiderweb", ["remove_nasty_arc"])], gens=["C19", "GENGZ", "GENSW"],
                 rule="generated graphs x flags x removal sequences until the first raise; non-trivial = history of "
                      ">= 2 returning calls"),
     "C20": dict(level="translation_validation", theorems=T("C20", "C20_stateless", "C20_compositional", "C20_idempotent_observation"), gens=["C20"],
